@@ -16,6 +16,9 @@ Lemma code_years_sorted : gen_jp_years_sorted = true.
 Proof. reflexivity. Qed.
 Lemma code_prev_existing : gen_jp_prev_existing_year = true.
 Proof. reflexivity. Qed.
+(** the yen value of a transfer's lost amount is kept whenever that amount is > 0 (finding F14 repaired) *)
+Lemma code_intra_yen_guard : gen_jp_intra_yen_guard_on_crypto = true.
+Proof. reflexivity. Qed.
 
 (** ---------- small list facts *)
 Lemma NoDup_map_inj_in {A B} (f : A -> B) (l : list A) :
@@ -53,11 +56,12 @@ Qed.
 
 Section Jp.
 Variable lang : Z.
+Variable yg : bool.
 Variable exs : list str.
 
-Notation AE := (asset_emissions lang exs gen_jp_years_sorted gen_jp_prev_existing_year).
-Notation ridx := (em_row_index lang exs).
-Notation sheet := (asset_sheet lang exs).
+Notation AE := (asset_emissions lang yg exs gen_jp_years_sorted gen_jp_prev_existing_year).
+Notation ridx := (em_row_index lang yg exs).
+Notation sheet := (asset_sheet lang yg exs).
 
 (** ---------- one emission (sheet) per year of the asset that has a transaction, ascending *)
 Lemma AE_years a txs : map em_year (AE a txs) = map fst (ordered_groups true txs).
@@ -89,29 +93,29 @@ Lemma AE_unique a txs e e' : In e (AE a txs) -> In e' (AE a txs) -> em_year e = 
 Proof. apply NoDup_map_eq, AE_years_nodup. Qed.
 
 (** ---------- the transaction rows of a sheet *)
-Lemma em_rows_kept e : em_rows lang exs e = map (process lang exs) (em_kept lang exs e).
+Lemma em_rows_kept e : em_rows lang yg exs e = map (process lang yg exs) (em_kept lang yg exs e).
 Proof. unfold em_rows, em_kept, has_row. apply filter_map_comm. Qed.
 
 Lemma AE_rows a txs e : In e (AE a txs) ->
   let y := em_year e in
-  let kept := em_kept lang exs e in
-  Permutation kept (filter (fun t => (tx_year t =? y) && has_row lang exs t) txs) /\
+  let kept := em_kept lang yg exs e in
+  Permutation kept (filter (fun t => (tx_year t =? y) && has_row lang yg exs t) txs) /\
   StronglySorted (fun t1 t2 => t_us t1 <= t_us t2) kept /\
   (NoDup txs -> NoDup kept) /\
   ridx e = gen_jp_first_row + Z.of_nat (length kept) /\
   forall k t, nth_error kept k = Some t ->
-    forall w, In w (row_cells (gen_jp_first_row + Z.of_nat k) (process lang exs t)) ->
+    forall w, In w (row_cells (gen_jp_first_row + Z.of_nat k) (process lang yg exs t)) ->
       cell_at (sw_writes (sheet e)) (gen_jp_first_row + Z.of_nat k) (cw_col w) = cw_val w.
 Proof.
   intros He. cbv zeta. destruct (AE_in _ _ _ He) as [_ Et].
-  assert (P : Permutation (em_kept lang exs e) (filter (fun t => (tx_year t =? em_year e) && has_row lang exs t) txs)).
+  assert (P : Permutation (em_kept lang yg exs e) (filter (fun t => (tx_year t =? em_year e) && has_row lang yg exs t) txs)).
   { unfold em_kept. rewrite Et. rewrite <- filter_filter_andb. apply filter_perm, sort_by_perm. }
   split; [exact P|]. split; [|split; [|split]].
   - unfold em_kept. rewrite Et. apply (sorted_filter t_us), sort_by_sorted.
   - intros Hn. eapply Permutation_NoDup; [apply Permutation_sym, P|]. apply NoDup_filter, Hn.
   - unfold em_row_index. rewrite em_rows_kept, map_length. reflexivity.
   - intros k t Hk w Hw. rewrite <- (row_cells_row _ _ _ Hw) at 1.
-    apply (asset_row_cell lang exs e k (process lang exs t)); [|exact Hw].
+    apply (asset_row_cell lang yg exs e k (process lang yg exs t)); [|exact Hw].
     rewrite em_rows_kept. apply map_nth_error. exact Hk.
 Qed.
 
@@ -131,17 +135,17 @@ Proof.
   destruct H as [H|[H|[H|[H|[]]]]]; inversion H; subst; eexists; unfold gen_jp_asset_tail; in_tac.
 Qed.
 
-Lemma em_return_row e : em_return lang exs e = ridx e + 8 + 1.
+Lemma em_return_row e : em_return lang yg exs e = ridx e + 8 + 1.
 Proof. unfold em_return. change gen_jp_return_delta with 9. lia. Qed.
 
-Lemma em_return_pos e : em_return lang exs e <> 0.
+Lemma em_return_pos e : em_return lang yg exs e <> 0.
 Proof. rewrite em_return_row. unfold em_row_index. pose proof jp_first_row_ok. lia. Qed.
 
 Lemma result_cell_formula e dr col : In (dr, col) result_cells ->
   exists f, cell_at (sw_writes (sheet e)) (ridx e + dr) col = PFormula f.
 Proof.
   intros H. destruct (jp_result_entries dr col H) as [ps Hin].
-  rewrite (asset_tail_cell lang exs e dr col _ Hin). cbn [tail_value]. eexists. reflexivity.
+  rewrite (asset_tail_cell lang yg exs e dr col _ Hin). cbn [tail_value]. eexists. reflexivity.
 Qed.
 
 Lemma opening_cells e :
@@ -152,7 +156,7 @@ Lemma opening_cells e :
      cell_at (sw_writes (sheet e)) (ridx e + 9) 4 = sheet_ref (tax_sheet_name lang (em_asset e) (em_prev_year e)) 73 (em_prev_off e + 1)).
 Proof.
   destruct jp_opening_entries as [H8 H9].
-  rewrite (asset_tail_cell lang exs e _ _ _ H8), (asset_tail_cell lang exs e _ _ _ H9). cbn [tail_value].
+  rewrite (asset_tail_cell lang yg exs e _ _ _ H8), (asset_tail_cell lang yg exs e _ _ _ H9). cbn [tail_value].
   split; intros H.
   - rewrite H. cbn. auto.
   - destruct (em_prev_off e =? 0) eqn:E; [lia|].
@@ -175,8 +179,8 @@ Proof.
   intros He. destruct (in_split _ _ He) as [pre [post E]].
   pose proof (AE_years_sorted a txs) as S. rewrite E, map_app in S. cbn [map] in S.
   destruct (sorted_lt_split _ _ _ _ S eq_refl) as [Hpre Hpost].
-  assert (C : chained lang exs gen_jp_prev_existing_year 0 0 (AE a txs)) by (unfold asset_emissions; apply year_loop_chained).
-  pose proof (chained_split lang exs _ _ _ _ pre e post C E) as CS.
+  assert (C : chained lang yg exs gen_jp_prev_existing_year 0 0 (AE a txs)) by (unfold asset_emissions; apply year_loop_chained).
+  pose proof (chained_split lang yg exs _ _ _ _ pre e post C E) as CS.
   destruct (opening_cells e) as [O0 O1]. destruct (AE_in _ _ _ He) as [Ha _].
   split.
   - intros Hmin. destruct (rev pre) as [|e' r] eqn:R.
@@ -223,8 +227,8 @@ Lemma jp_summary_entries :
 Proof. repeat split; unfold gen_jp_summary_line; in_tac. Qed.
 
 Lemma summary_years ems :
-  NoDup (map fst (ss_sheets (summary_state lang exs ems))) /\
-  forall y, In y (map fst (ss_sheets (summary_state lang exs ems))) <-> In y (map em_year ems).
+  NoDup (map fst (ss_sheets (summary_state lang yg exs ems))) /\
+  forall y, In y (map fst (ss_sheets (summary_state lang yg exs ems))) <-> In y (map em_year ems).
 Proof.
   split; [apply summary_keys_nodup|]. intros y. split.
   - intros H. apply in_map_iff in H. destruct H as [[y' ops] [<- Hin]]. cbn [fst].
@@ -233,7 +237,7 @@ Proof.
     assert (Hx : In x (filter (yof y') ems)) by (rewrite F; left; reflexivity).
     apply filter_In in Hx. destruct Hx as [Hx Hy]. apply in_map_iff. exists x. split; [lia|exact Hx].
   - intros H. apply in_map_iff in H. destruct H as [e [<- He]].
-    apply in_map_iff. exists (em_year e, spec_ops lang exs (filter (yof (em_year e)) ems)). split; [reflexivity|].
+    apply in_map_iff. exists (em_year e, spec_ops lang yg exs (filter (yof (em_year e)) ems)). split; [reflexivity|].
     apply summary_sheet_of_year. split; [|reflexivity].
     intros F. assert (Hin : In e (filter (yof (em_year e)) ems)) by (apply filter_In; split; [exact He|lia]).
     rewrite F in Hin. contradiction.
@@ -242,7 +246,7 @@ Qed.
 (** line j of the summary of year y belongs to the j-th emission of that year (generation order = asset
     order) and points at the result cells of that emission's own sheet *)
 Lemma summary_line ems y j e : nth_error (filter (yof y) ems) j = Some e ->
-  exists s, In s (summary_sheets lang exs ems) /\ sw_name s = summary_sheet_name lang y /\
+  exists s, In s (summary_sheets lang yg exs ems) /\ sw_name s = summary_sheet_name lang y /\
     let row := gen_jp_summary_start + Z.of_nat j in
     let nm := tax_sheet_name lang (em_asset e) (em_year e) in
     em_year e = y /\ sw_name (sheet e) = nm /\
@@ -257,20 +261,20 @@ Proof.
   assert (Hne : es <> []) by (intro F; rewrite F in Hj; destruct j; discriminate).
   assert (Hy : em_year e = y).
   { apply nth_error_In in Hj. apply filter_In in Hj. lia. }
-  exists (sheet_of (summary_sheet_name lang y) gen_jp_tmpl_summary_rows gen_jp_tmpl_summary_cols (spec_ops lang exs es)).
+  exists (sheet_of (summary_sheet_name lang y) gen_jp_tmpl_summary_rows gen_jp_tmpl_summary_cols (spec_ops lang yg exs es)).
   split.
-  - unfold summary_sheets. apply in_map_iff. exists (y, spec_ops lang exs es). split; [reflexivity|].
+  - unfold summary_sheets. apply in_map_iff. exists (y, spec_ops lang yg exs es). split; [reflexivity|].
     apply summary_sheet_of_year. auto.
   - split; [reflexivity|]. cbv zeta. split; [exact Hy|]. split; [reflexivity|].
     assert (G : forall col v, In (col, v) gen_jp_summary_line ->
-              cell_at (sw_writes (sheet_of (summary_sheet_name lang y) gen_jp_tmpl_summary_rows gen_jp_tmpl_summary_cols (spec_ops lang exs es)))
+              cell_at (sw_writes (sheet_of (summary_sheet_name lang y) gen_jp_tmpl_summary_rows gen_jp_tmpl_summary_cols (spec_ops lang yg exs es)))
                       (gen_jp_summary_start + Z.of_nat j) col
-              = tail_value lang exs e (em_ctx lang exs e (gen_jp_summary_start + Z.of_nat j)) v).
+              = tail_value lang yg exs e (em_ctx lang yg exs e (gen_jp_summary_start + Z.of_nat j)) v).
     { intros col v Hin. unfold sheet_of, spec_ops. cbn [sw_writes]. rewrite resolve_ops_app.
-      set (w := cw (gen_jp_summary_start + Z.of_nat j) col (tail_value lang exs e (em_ctx lang exs e (gen_jp_summary_start + Z.of_nat j)) v)).
+      set (w := cw (gen_jp_summary_start + Z.of_nat j) col (tail_value lang yg exs e (em_ctx lang yg exs e (gen_jp_summary_start + Z.of_nat j)) v)).
       change (gen_jp_summary_start + Z.of_nat j) with (cw_row w) at 1. change col with (cw_col w) at 1.
-      change (tail_value lang exs e (em_ctx lang exs e (gen_jp_summary_start + Z.of_nat j)) v) with (cw_val w).
-      apply (sum_line_cell lang exs es gen_jp_summary_start j e); [exact Hj|].
+      change (tail_value lang yg exs e (em_ctx lang yg exs e (gen_jp_summary_start + Z.of_nat j)) v) with (cw_val w).
+      apply (sum_line_cell lang yg exs es gen_jp_summary_start j e); [exact Hj|].
       unfold line_cells. apply in_map_iff. exists (col, v). split; [reflexivity|exact Hin]. }
     destruct jp_summary_entries as [E0 [E3 [E4 [E5 E6]]]].
     rewrite (G _ _ E0), (G _ _ E3), (G _ _ E4), (G _ _ E5), (G _ _ E6). cbn [tail_value].
@@ -293,11 +297,11 @@ Proof.
 Qed.
 End Jp.
 
-Lemma jp_report_shape lang ys pe i r : jp_report lang ys pe i = Ok r ->
+Lemma jp_report_shape lang yg ys pe i r : jp_report lang yg ys pe i = Ok r ->
   exists l, computed_all i (rp_assets i) = Ok l /\ map fst l = rp_assets i /\
     (rp_from i = MIN_DAY \/ rp_to i = MAX_DAY) /\
-    let ems := all_emissions lang ys pe (rp_exchanges i) l in
-    r = summary_sheets lang (rp_exchanges i) ems ++ map (asset_sheet lang (rp_exchanges i)) ems.
+    let ems := all_emissions lang yg ys pe (rp_exchanges i) l in
+    r = summary_sheets lang yg (rp_exchanges i) ems ++ map (asset_sheet lang yg (rp_exchanges i)) ems.
 Proof.
   unfold jp_report. destruct (computed_all i (rp_assets i)) as [l|] eqn:E; [|discriminate].
   destruct (negb (rp_from i =? MIN_DAY) && negb (rp_to i =? MAX_DAY)) eqn:W; [discriminate|].
@@ -306,7 +310,7 @@ Proof.
 Qed.
 
 (** every sheet of the report stays inside its capacity *)
-Lemma report_sheets_ok lang exs ems s : In s (report_of lang exs ems) -> sheet_ok s = true.
+Lemma report_sheets_ok lang yg exs ems s : In s (report_of lang yg exs ems) -> sheet_ok s = true.
 Proof.
   unfold report_of. intros H. apply in_app_iff in H. destruct H as [H|H].
   - eapply summary_sheets_ok; eauto.
@@ -314,40 +318,40 @@ Proof.
 Qed.
 
 (** sheet names: one per (asset, year), pairwise distinct *)
-Lemma all_emissions_names_nodup lang exs (l : list (rasset * computed)) :
+Lemma all_emissions_names_nodup lang yg exs (l : list (rasset * computed)) :
   NoDup (map (fun ac => ra_name (fst ac)) l) ->
   (forall ac t, In ac l -> In t (chain_of (snd ac)) -> 1 <= tx_year t <= 9999) ->
-  NoDup (map (fun e => sw_name (asset_sheet lang exs e)) (all_emissions lang gen_jp_years_sorted gen_jp_prev_existing_year exs l)).
+  NoDup (map (fun e => sw_name (asset_sheet lang yg exs e)) (all_emissions lang yg gen_jp_years_sorted gen_jp_prev_existing_year exs l)).
 Proof.
   induction l as [|[a c] l IH]; intros Hn Hr; cbn [all_emissions flat_map map]; [constructor|].
-  fold (all_emissions lang gen_jp_years_sorted gen_jp_prev_existing_year exs l).
+  fold (all_emissions lang yg gen_jp_years_sorted gen_jp_prev_existing_year exs l).
   inversion Hn as [|? ? Ha Hl]; subst. cbn [fst snd] in *. rewrite map_app.
-  assert (Hyr : forall e, In e (asset_emissions lang exs gen_jp_years_sorted gen_jp_prev_existing_year (ra_name a) (chain_of c)) ->
+  assert (Hyr : forall e, In e (asset_emissions lang yg exs gen_jp_years_sorted gen_jp_prev_existing_year (ra_name a) (chain_of c)) ->
                           1 <= em_year e <= 9999).
-  { intros e He. assert (Hy : In (em_year e) (map em_year (asset_emissions lang exs gen_jp_years_sorted gen_jp_prev_existing_year (ra_name a) (chain_of c))))
+  { intros e He. assert (Hy : In (em_year e) (map em_year (asset_emissions lang yg exs gen_jp_years_sorted gen_jp_prev_existing_year (ra_name a) (chain_of c))))
       by (apply in_map; exact He).
     apply AE_year_iff in Hy. destruct Hy as [t [Ht <-]]. apply (Hr (a, c)); [left; reflexivity|exact Ht]. }
   apply nodup_app.
   - apply NoDup_map_inj_in.
-    + intros x y Hx Hy E. cbn in E. destruct (AE_in _ _ _ _ _ Hx) as [Ax _]. destruct (AE_in _ _ _ _ _ Hy) as [Ay _].
+    + intros x y Hx Hy E. cbn in E. destruct (AE_in _ _ _ _ _ _ Hx) as [Ax _]. destruct (AE_in _ _ _ _ _ _ Hy) as [Ay _].
       apply tax_sheet_name_inj in E; [|apply Hyr; assumption|apply Hyr; assumption].
-      apply (AE_unique lang exs (ra_name a) (chain_of c)); tauto.
+      apply (AE_unique lang yg exs (ra_name a) (chain_of c)); tauto.
     + eapply NoDup_map_inv. apply AE_years_nodup.
   - apply IH; [exact Hl|]. intros ac t Hac. apply Hr. right. exact Hac.
   - intros nm H1 H2. apply in_map_iff in H1. destruct H1 as [e1 [<- He1]]. apply in_map_iff in H2. destruct H2 as [e2 [E He2]].
     unfold all_emissions in He2. apply in_flat_map in He2. destruct He2 as [[a2 c2] [Hac He2]]. cbn [fst snd] in He2.
-    destruct (AE_in _ _ _ _ _ He1) as [A1 _]. destruct (AE_in _ _ _ _ _ He2) as [A2 _].
+    destruct (AE_in _ _ _ _ _ _ He1) as [A1 _]. destruct (AE_in _ _ _ _ _ _ He2) as [A2 _].
     cbn in E. apply tax_sheet_name_inj in E.
     + destruct E as [E _]. apply Ha. rewrite <- A1, <- E, A2. apply (in_map (fun ac => ra_name (fst ac)) _ (a2, c2)). exact Hac.
-    + assert (Hy : In (em_year e2) (map em_year (asset_emissions lang exs gen_jp_years_sorted gen_jp_prev_existing_year (ra_name a2) (chain_of c2))))
+    + assert (Hy : In (em_year e2) (map em_year (asset_emissions lang yg exs gen_jp_years_sorted gen_jp_prev_existing_year (ra_name a2) (chain_of c2))))
         by (apply in_map; exact He2).
       apply AE_year_iff in Hy. destruct Hy as [t [Ht <-]]. apply (Hr (a2, c2)); [right; exact Hac|exact Ht].
     + apply Hyr. exact He1.
 Qed.
 
 (** ---------- what a row shows, per class of transaction (by definition of the writer's model; columns A..I) *)
-Lemma row_cells_in lang exs row a :
-  row_cells row (process lang exs (TIn a)) =
+Lemma row_cells_in lang yg exs row a :
+  row_cells row (process lang yg exs (TIn a)) =
   let yen := dmul (of_grid (i_crypto_in a)) (of_grid (i_spot a)) in
   [cw row 0 (PInt (month_of (i_ts a))); cw row 1 (PInt (dom_of (i_ts a))); cw row 2 (PStr (exch_name exs (i_exch a)));
    cw row 3 (PStr (type_text (i_type a))); cw row 4 (PNum (of_grid (i_crypto_in a))); cw row 5 (PNum yen)]
@@ -355,8 +359,8 @@ Lemma row_cells_in lang exs row a :
   ++ [cw row 8 (PNum (fee_in_yen (i_crypto_fee a) (i_spot a) (i_fiat_fee a)))].
 Proof. unfold row_cells, process, process_in. cbn [jr_pur_amt jr_sale_amt jr_pur_yen jr_sale_yen jr_donated jr_month jr_day jr_client jr_type jr_fee]. destruct (ttype_in (i_type a) gen_jp_income_types); reflexivity. Qed.
 
-Lemma row_cells_out lang exs row a :
-  row_cells row (process lang exs (TOut a)) =
+Lemma row_cells_out lang yg exs row a :
+  row_cells row (process lang yg exs (TOut a)) =
   let yen := dmul (of_grid (o_crypto_out_no_fee a)) (of_grid (o_spot a)) in
   [cw row 0 (PInt (month_of (o_ts a))); cw row 1 (PInt (dom_of (o_ts a))); cw row 2 (PStr (exch_name exs (o_exch a)));
    cw row 3 (PStr (type_text (o_type a))); cw row 6 (PNum (of_grid (o_crypto_out_with_fee a)));
@@ -365,22 +369,61 @@ Lemma row_cells_out lang exs row a :
 Proof. unfold row_cells, process, process_out. cbn [jr_pur_amt jr_sale_amt jr_pur_yen jr_sale_yen jr_donated jr_month jr_day jr_client jr_type jr_fee]. destruct (ttype_eqb (o_type a) DONATE); reflexivity. Qed.
 
 (** a transfer has a row exactly when something was lost on the way; the row shows the lost amount as sold *)
-Lemma has_row_intra lang exs a : has_row lang exs (TIntra a) = dgtb (of_grid (x_crypto_sent a - x_crypto_received a)) dzero.
+Lemma has_row_intra lang yg exs a : has_row lang yg exs (TIntra a) = dgtb (of_grid (x_crypto_sent a - x_crypto_received a)) dzero.
 Proof. unfold has_row, process, process_intra, jr_has_row. cbn [jr_pur_amt jr_sale_amt]. destruct (dgtb _ dzero); reflexivity. Qed.
-Lemma has_row_in lang exs a : has_row lang exs (TIn a) = true.
+Lemma has_row_in lang yg exs a : has_row lang yg exs (TIn a) = true.
 Proof. reflexivity. Qed.
-Lemma has_row_out lang exs a : has_row lang exs (TOut a) = true.
+Lemma has_row_out lang yg exs a : has_row lang yg exs (TOut a) = true.
 Proof. reflexivity. Qed.
 
-Lemma row_cells_intra lang exs row a : has_row lang exs (TIntra a) = true ->
-  row_cells row (process lang exs (TIntra a)) =
+Lemma row_cells_intra lang yg exs row a : has_row lang yg exs (TIntra a) = true ->
+  row_cells row (process lang yg exs (TIntra a)) =
   let fee := of_grid (x_crypto_sent a - x_crypto_received a) in
   let yen := dmul fee (of_grid (x_spot a)) in
   [cw row 0 (PInt (month_of (x_ts a))); cw row 1 (PInt (dom_of (x_ts a))); cw row 2 (PStr (gen_jp_transfer lang));
-   cw row 3 (PStr (type_text FEE)); cw row 6 (PNum fee); cw row 7 (if dgtb yen dzero then PNum yen else PEmpty);
+   cw row 3 (PStr (type_text FEE)); cw row 6 (PNum fee);
+   cw row 7 (if (if yg then true else dgtb yen dzero) then PNum yen else PEmpty);
    cw row 8 (PNum dzero)].
 Proof.
   rewrite has_row_intra. intros H. unfold row_cells, process, process_intra.
   cbn [jr_pur_amt jr_sale_amt jr_pur_yen jr_sale_yen jr_donated jr_month jr_day jr_client jr_type jr_fee]. rewrite H.
-  destruct (dgtb (dmul _ _) dzero); reflexivity.
+  destruct yg; [reflexivity|]. destruct (dgtb (dmul _ _) dzero); reflexivity.
+Qed.
+
+(** with the guard of the current source the row of a transfer always carries its yen value *)
+Lemma row_cells_intra_code lang exs row a : has_row lang gen_jp_intra_yen_guard_on_crypto exs (TIntra a) = true ->
+  row_cells row (process lang gen_jp_intra_yen_guard_on_crypto exs (TIntra a)) =
+  let fee := of_grid (x_crypto_sent a - x_crypto_received a) in
+  let yen := dmul fee (of_grid (x_spot a)) in
+  [cw row 0 (PInt (month_of (x_ts a))); cw row 1 (PInt (dom_of (x_ts a))); cw row 2 (PStr (gen_jp_transfer lang));
+   cw row 3 (PStr (type_text FEE)); cw row 6 (PNum fee); cw row 7 (PNum yen); cw row 8 (PNum dzero)].
+Proof. rewrite code_intra_yen_guard. intros H. rewrite (row_cells_intra lang true exs row a H). reflexivity. Qed.
+
+(** ---------- no row hands None to the spreadsheet library (the crash of finding F14 cannot happen) *)
+Lemma row_never_raises lang exs t : row_raises (process lang true exs t) = false.
+Proof.
+  destruct t as [a|a|a]; unfold process, process_in, process_out, process_intra, row_raises;
+    cbn [jr_pur_amt jr_sale_amt jr_pur_yen jr_sale_yen jr_donated].
+  - destruct (ttype_in (i_type a) gen_jp_income_types); reflexivity.
+  - reflexivity.
+  - destruct (dgtb (of_grid (x_crypto_sent a - x_crypto_received a)) dzero); reflexivity.
+Qed.
+
+Lemma existsb_all_false {A} (f : A -> bool) l : (forall x, In x l -> f x = false) -> existsb f l = false.
+Proof. induction l as [|x l IH]; intros H; cbn [existsb]; [reflexivity|]. rewrite (H x (or_introl eq_refl)), IH; [reflexivity|]. intros y Hy. apply H. right. exact Hy. Qed.
+
+Lemma em_never_raises lang exs e : em_raises lang true exs e = false.
+Proof.
+  unfold em_raises, em_rows. apply existsb_all_false. intros r Hr. apply filter_In in Hr. destruct Hr as [Hr _].
+  apply in_map_iff in Hr. destruct Hr as [t [<- _]]. apply row_never_raises.
+Qed.
+
+(** Generator.generate runs to completion on every input the engine accepts, unless both -f and -t are given *)
+Lemma jp_report_total lang ys pe i l :
+  computed_all i (rp_assets i) = Ok l -> (rp_from i = MIN_DAY \/ rp_to i = MAX_DAY) ->
+  exists r, jp_report lang gen_jp_intra_yen_guard_on_crypto ys pe i = Ok r.
+Proof.
+  intros Hc Hw. rewrite code_intra_yen_guard. unfold jp_report. rewrite Hc.
+  assert (W : negb (rp_from i =? MIN_DAY) && negb (rp_to i =? MAX_DAY) = false) by lia. rewrite W.
+  rewrite existsb_all_false by (intros e _; apply em_never_raises). eexists. reflexivity.
 Qed.
